@@ -84,6 +84,7 @@ type faultWriter struct {
 	buf    bytes.Buffer
 	budget int
 	over   bool
+	fired  bool // the injected error was actually returned at least once
 }
 
 func (w *faultWriter) Write(p []byte) (int, error) {
@@ -94,6 +95,7 @@ func (w *faultWriter) Write(p []byte) (int, error) {
 		return 0, errors.New("c14: writer call budget exceeded")
 	}
 	if i >= w.k {
+		w.fired = true
 		return 0, w.err
 	}
 	return w.buf.Write(p)
@@ -117,13 +119,14 @@ type c14Case struct {
 	chunk   int
 	rerr    int // kind of reader error
 	wk      int // writer fault index, -1 none
+	werr    int // kind of writer error
 	refOut  []byte
 	refW    int
 	srcName string
 }
 
 func (c c14Case) String() string {
-	return fmt.Sprintf("%s %s rk=%d rvar=%d rerr=%d chunk=%d wk=%d len=%d", c.mt, c.entry, c.rk, c.rvar, c.rerr, c.chunk, c.wk, len(c.input))
+	return fmt.Sprintf("%s %s rk=%d rvar=%d rerr=%d chunk=%d wk=%d werr=%d len=%d", c.mt, c.entry, c.rk, c.rvar, c.rerr, c.chunk, c.wk, c.werr, len(c.input))
 }
 
 // reader failures come in three kinds: a plain sentinel, and errors that wrap io.EOF /
@@ -150,6 +153,32 @@ func c14ReaderErr(kind int) error {
 var errC14W = errors.New("c14 injected writer failure")
 
 // c14Exec runs one case; returns "" if the property held, else what failed.
+// c14Registry: the six real minifiers plus a streaming one that copies its input through (it returns as soon
+// as the destination fails, without having consumed the rest of its input, unlike the built-in ones).
+func c14Registry() *minify.M {
+	m := newM(nil)
+	m.AddFunc("text/x-copy", func(_ *minify.M, w io.Writer, r io.Reader, _ map[string]string) error {
+		_, err := io.Copy(w, r)
+		return err
+	})
+	return m
+}
+
+// the destination's error: a unique sentinel, or one of the errors the standard library itself produces
+func c14WriterErr(kind int) error {
+	switch kind {
+	case 1:
+		return io.ErrClosedPipe
+	case 2:
+		return io.ErrShortWrite
+	case 3:
+		return io.EOF
+	case 4:
+		return io.ErrUnexpectedEOF
+	}
+	return errC14W
+}
+
 func c14Exec(m *minify.M, c c14Case) (bad string) {
 	defer func() {
 		if r := recover(); r != nil {
@@ -166,10 +195,14 @@ func c14Exec(m *minify.M, c c14Case) (bad string) {
 	}
 	fr := &faultReader{data: c.input, k: rk, variant: c.rvar, chunk: c.chunk, err: c14ReaderErr(c.rerr), budget: 100*(len(c.input)+2) + 1000}
 	errC14R := fr.err
-	fw := &faultWriter{k: wk, err: errC14W, budget: 100*(c.refW+2) + 1000}
+	errC14W := c14WriterErr(c.werr) // (shadows the sentinel: the comparisons below use this case's error)
+	fw := &faultWriter{k: wk, err: errC14W, budget: 100*(c.refW+len(c.input)+2) + 1000}
 	readerFault := c.rk >= 0
 	writerFault := c.wk >= 0 && c.wk < c.refW
 	judge := func(err error) string {
+		if c.mt == "text/x-copy" {
+			writerFault = fw.fired // the number of writes of a streaming minifier depends on the chunking
+		}
 		if fr.over || fw.over {
 			return "call budget exceeded (livelock)"
 		}
@@ -252,6 +285,9 @@ func c14Exec(m *minify.M, c c14Case) (bad string) {
 		cerr := wc.Close()
 		if fw.over {
 			return "call budget exceeded (livelock)"
+		}
+		if c.mt == "text/x-copy" {
+			writerFault = fw.fired
 		}
 		if writerFault {
 			if cerr == nil && werr == nil {
@@ -379,6 +415,10 @@ func c14Inputs(run *core.Run, maxFile int) []c14Input {
 			ins = append(ins, c14Input{mt, f.Name, f.Data})
 		}
 	}
+	// the streaming minifier: inputs of several pipe/chunk sizes
+	for i, n := range []int{1, 100, 4096, 3 * 4096, 70000} {
+		ins = append(ins, c14Input{"text/x-copy", fmt.Sprintf("copy#%d", i), bytes.Repeat([]byte("0123456789abcdef"), n/16+1)[:n]})
+	}
 	// generated JSON texts
 	for i := 0; i < run.N(10, 60); i++ {
 		r := run.CaseRand("json", i, run.N(10, 60)/2)
@@ -388,7 +428,7 @@ func c14Inputs(run *core.Run, maxFile int) []c14Input {
 }
 
 func c14BuildCases(run *core.Run, ins []c14Input, race bool) []c14Case {
-	m := newM(nil)
+	m := c14Registry()
 	var cases []c14Case
 	dense, stride := 512, 61
 	if race {
@@ -434,6 +474,9 @@ func c14BuildCases(run *core.Run, ins []c14Input, race bool) []c14Case {
 				}
 				c := base
 				c.wk, c.entry, c.chunk = k, entry, chunks[r.Intn(3)]
+				if r.Chance(1, 3) {
+					c.werr = 1 + r.Intn(4)
+				}
 				cases = append(cases, c)
 			}
 			// both at once (sampled)
@@ -481,7 +524,7 @@ func c14BuildCases(run *core.Run, ins []c14Input, race bool) []c14Case {
 }
 
 func c14RunCases(run *core.Run, cases []c14Case) {
-	m := newM(nil)
+	m := c14Registry()
 	var kinds [8]int64
 	core.ParallelFor(len(cases), 0, func(i int) {
 		c := cases[i]
@@ -597,7 +640,7 @@ func init() {
 			}
 		}
 		cases := c14BuildCases(run, ins, true)
-		m := newM(nil)
+		m := c14Registry()
 		bad := 0
 		core.ParallelFor(len(cases), 0, func(i int) {
 			if r := c14Exec(m, cases[i]); r != "" {
